@@ -5,7 +5,7 @@ import math
 
 from hypothesis import strategies as st
 
-from .. import cases, common, env, oracles, preds, refmodels, runner, strategies as S, sut
+from .. import fuzz_target, cases, common, env, oracles, preds, refmodels, runner, strategies as S, sut
 from ..runner import Failure, Leg, Result
 
 PROP = "C03"
@@ -121,6 +121,7 @@ def legs(tier):
             "hypothesis: bin_completion on planted-perfect (with slack), many-equal and mid-size uniform inputs, the "
             "classes where BFD does not meet the lower bound; same non-triviality rule",
             strategy=bc_search_cases(), n_quick=1500, n_thorough=30000, valid=cases.valid_packing_case, floor=0.1),
+        fuzz_target.fuzz_leg(PROP, 80000, evaluate, cases.valid_packing_case),
     ]
 
 
